@@ -346,6 +346,9 @@ func ValidateLayout(dir string, allEntries bool) []LayoutProblem {
 			continue
 		}
 		for _, e := range ents {
+			if !e.Type().IsRegular() {
+				continue // not a blob file (the layout spec only speaks of files)
+			}
 			p := filepath.Join(blobs, a.Name(), e.Name())
 			f, err := os.Open(p)
 			if err != nil {
